@@ -462,7 +462,8 @@ void Runner::exec_op(Thread *t, int idx) {
     case OP_USERFD: {
       // harness actions on the caller process between API calls: a = 1 raise the soft descriptor limit to b;
       // a = 2 open a user descriptor (null device) with number b, close-on-exec = c
-      if (op.a == 1) { if ((uint64_t) op.b > K->caller->rlim_max) K->caller->rlim_max = (uint64_t) op.b; K->caller->rlim_cur = (uint64_t) op.b; }
+      // (raise only: lowering the limit below descriptors that are already open leaves them outside "up to the limit")
+      if (op.a == 1 && (uint64_t) op.b > K->caller->rlim_cur) { if ((uint64_t) op.b > K->caller->rlim_max) K->caller->rlim_max = (uint64_t) op.b; K->caller->rlim_cur = (uint64_t) op.b; }
       if (op.a == 2 && op.b >= 3 && (uint64_t) op.b < K->caller->rlim_cur && !K->fdent(K->caller, (int) op.b)) {
         OFD *o = K->ofd_new(OFD::NUL);
         o->acc = O_RDWR;
